@@ -209,6 +209,36 @@ fn check_state(
         }
         unsafe { llg_free_matcher(m2) };
     }
+    // reset, then consume_tokens(history) through the C API on a clone: same state as before
+    {
+        let m2 = unsafe { llg_clone_matcher(&*cm) };
+        let mut r2 = rm.deep_clone();
+        let c = unsafe { llg_matcher_reset(&mut *m2) };
+        let r = r2.reset();
+        if (c == 0) != r.is_ok() {
+            unsafe { llg_free_matcher(m2) };
+            return Err(v("matcher_reset_code", "ffi-result-differs", json!({"c": c, "rust_ok": r.is_ok()})));
+        }
+        if c == 0 {
+            let c2 = unsafe { llg_matcher_consume_tokens(&mut *m2, hist.as_ptr(), hist.len()) };
+            let rr = r2.consume_tokens(hist);
+            let same_code = (c2 == 0) == rr.is_ok();
+            let _ = unsafe { llg_matcher_compute_mask(&mut *m2) };
+            let p = unsafe { llg_matcher_get_mask(&mut *m2) };
+            let rmk = r2.compute_mask_or_eos();
+            let mut same_mask = true;
+            if let (false, Ok(rmk)) = (p.is_null(), &rmk) {
+                let got = unsafe { std::slice::from_raw_parts(p, bsz / 4) };
+                same_mask = got == &rmk.as_slice()[..bsz / 4];
+            }
+            let same_stop = unsafe { llg_matcher_is_stopped(&*m2) } == r2.is_stopped();
+            if !same_code || !same_mask || !same_stop {
+                unsafe { llg_free_matcher(m2) };
+                return Err(v("matcher_reset_consume_tokens", "ffi-result-differs", json!({"consume_code": c2, "rust_ok": rr.is_ok(), "same_mask": same_mask, "same_stop": same_stop})));
+            }
+        }
+        unsafe { llg_free_matcher(m2) };
+    }
     // ---- llg_par_compute_mask on clones, every destination length
     let max_bytes = 2 * words * 4 + 8;
     for with_cb in [false, true] {
@@ -608,6 +638,6 @@ pub fn run(ctx: &Ctx) -> Coverage {
         ctx.machinery_error("vacuous run: llg_par_compute_mask never called");
     }
     Coverage::StateGraph {
-        rule: format!("extern \"C\" functions called from Rust in lock-step with the Rust Constraint/Matcher over all histories to depth {depth} (<= 6 successors per state) on 5 grammars and vocabulary sizes around multiples of 32; masks, commit results, validation counts, rollback, ff tokens compared; llg_matcher_compute_mask_into with exact and short lengths between canaries; llg_par_compute_mask with every destination length 0,4,..,2*mask+8, with and without callback, destination between canaries, llg_tokenize_bytes(_marker), llg_decode_tokens (all flag combinations), llg_stringify_tokens and the error string of a refused llg_new_tokenizer with every output length from 0 to the needed size + 2 between canaries (count, prefix, NUL, untouched tail); all heap blocks followed by a poisoned red zone (over-read shows as poison words, over-write as a broken zone)"),
+        rule: format!("extern \"C\" functions called from Rust in lock-step with the Rust Constraint/Matcher over all histories to depth {depth} (<= 6 successors per state) on 5 grammars and vocabulary sizes around multiples of 32; masks, commit results, validation counts, rollback, reset + consume_tokens(history), ff tokens compared; llg_matcher_compute_mask_into with exact and short lengths between canaries; llg_par_compute_mask with every destination length 0,4,..,2*mask+8, with and without callback, destination between canaries, llg_tokenize_bytes(_marker), llg_decode_tokens (all flag combinations), llg_stringify_tokens and the error string of a refused llg_new_tokenizer with every output length from 0 to the needed size + 2 between canaries (count, prefix, NUL, untouched tail); all heap blocks followed by a poisoned red zone (over-read shows as poison words, over-write as a broken zone)"),
     }
 }
